@@ -490,6 +490,9 @@ func canon(m map[string]string) string { return string(jb(m)) }
 type verdict struct {
 	ops, obs []string // Coq terms
 	fails    int
+	// dashboards/folders as a tree (DashTree.v): per tenant, the accepted operations and the answers
+	tops, tobs map[int64][]string
+	knownFails int // failures of a known class after which the scenario was still judged to its end
 }
 
 func opSig(fl []flatOp) string {
@@ -800,8 +803,407 @@ func genDash(r *vhlib.Rng, n int, xtenant bool) []*scenario {
 	return scs
 }
 
+// genDashTree: dashboards and folders as a TREE.  Nested folders (depth 2..5), dashboards at any depth,
+// then renames and moves of folders at every level (ancestors of dashboards preferred), moves and
+// saves of dashboards, deletes, restarts — and a read of a dashboard after (almost) every write, so
+// that a read meets every kind of change ABOVE the dashboard's own folder without a save in between.
+//   stream "tree":            every folder name is introduced once per scenario and has no '/'
+//                             (guard of C20_dash_tree_read_current_fresh_names): all of folder id /
+//                             name / path / breadcrumbs must be what the tree gives;
+//   stream "tree_path_reuse": known class — names are reused / contain '/', so that a changed chain of
+//                             folders can have the path STRING the dashboard already stores.
+func genDashTree(r *vhlib.Rng, n int, stream string) []*scenario {
+	orgs := []int64{0, 3}
+	bases := []string{"f", "Ordner ü", "x\"y", "d.", "A b", "Root", "漢", "q?&", "-"}
+	pool := []string{"a", "b", "a/b", "c", "b/c"}
+	dnames := []string{"d", "dash 1", "ü/✓", "D"}
+	type node struct {
+		folder bool
+		parent int
+		org    int64
+	}
+	var scs []*scenario
+	for i := 0; i < n; i++ {
+		var ops []kOp
+		cuts := map[int]bool{}
+		next, cnt := 1, 0
+		nodes := map[int]*node{}
+		fresh := func() string {
+			if stream == "tree_path_reuse" {
+				return vhlib.Pick(r, pool)
+			}
+			cnt++
+			return fmt.Sprintf("%s%d", vhlib.Pick(r, bases), cnt)
+		}
+		dname := func() string {
+			if r.Chance(12) {
+				return vhlib.Pick(r, dnames)
+			}
+			cnt++
+			return fmt.Sprintf("%s %d", vhlib.Pick(r, dnames), cnt)
+		}
+		sel := func(org int64, folder bool) []int {
+			var l []int
+			for rf, x := range nodes {
+				if x.org == org && x.folder == folder {
+					l = append(l, rf)
+				}
+			}
+			sort.Ints(l)
+			return l
+		}
+		depth := func(rf int) int {
+			d := 0
+			for cur := rf; cur != 0 && d < 50; d++ {
+				cur = nodes[cur].parent
+			}
+			return d
+		}
+		below := func(q, f int) bool { // q is f or a descendant of f
+			for cur, k := q, 0; cur != 0 && k < 50; k++ {
+				if cur == f {
+					return true
+				}
+				cur = nodes[cur].parent
+			}
+			return false
+		}
+		par := func(p int) int { // kOp.Parent encoding
+			if p == 0 {
+				return -1
+			}
+			return p
+		}
+		mkFolder := func(org int64, p int) int {
+			pp := p
+			if p == 0 && r.Bool() {
+				pp = 0 // parentId omitted = root
+			} else {
+				pp = par(p)
+			}
+			ops = append(ops, kOp{Op: "fcreate", Org: org, Name: fresh(), Parent: pp, NewRef: next})
+			nodes[next] = &node{folder: true, parent: p, org: org}
+			next++
+			return next - 1
+		}
+		mkDash := func(org int64, p int) int {
+			pp := par(p)
+			if p == 0 && r.Bool() {
+				pp = 0
+			}
+			ops = append(ops, kOp{Op: "dcreate", Org: org, Name: dname(), Desc: vhlib.Pick(r, oddStrings), Parent: pp, NewRef: next})
+			nodes[next] = &node{parent: p, org: org}
+			next++
+			return next - 1
+		}
+		// a dashboard, deep ones preferred
+		pickDash := func(org int64) int {
+			ds := sel(org, false)
+			if len(ds) == 0 {
+				return 99
+			}
+			best := vhlib.Pick(r, ds)
+			for t := 0; t < 2; t++ {
+				if c := vhlib.Pick(r, ds); depth(c) > depth(best) {
+					best = c
+				}
+			}
+			return best
+		}
+		// a folder; 70%: an ancestor-or-self of the parent of some dashboard
+		pickFolder := func(org int64) int {
+			fs := sel(org, true)
+			if len(fs) == 0 {
+				return 99
+			}
+			if r.Chance(70) {
+				if d := pickDash(org); d != 99 {
+					var anc []int
+					for cur, k := nodes[d].parent, 0; cur != 0 && k < 50; k++ {
+						anc = append(anc, cur)
+						cur = nodes[cur].parent
+					}
+					if len(anc) > 0 {
+						return vhlib.Pick(r, anc)
+					}
+				}
+			}
+			return vhlib.Pick(r, fs)
+		}
+		kill := func(f int) {
+			for changed := true; changed; {
+				changed = false
+				for rf, x := range nodes {
+					if rf != f && (x.parent == f || nodes[x.parent] == nil && x.parent != 0) {
+						delete(nodes, rf)
+						changed = true
+					}
+				}
+			}
+			delete(nodes, f)
+		}
+		// ---- build: per tenant a chain of folders, side folders, dashboards at several depths
+		for _, org := range orgs {
+			p := 0
+			var chain []int
+			for d, dd := 0, r.Range(2, 4); d < dd; d++ {
+				p = mkFolder(org, p)
+				chain = append(chain, p)
+			}
+			for e, ee := 0, r.Range(1, 3); e < ee; e++ {
+				q := 0
+				if r.Chance(70) {
+					q = vhlib.Pick(r, sel(org, true))
+				}
+				mkFolder(org, q)
+			}
+			mkDash(org, chain[len(chain)-1])
+			for e, ee := 0, r.Range(1, 2); e < ee; e++ {
+				q := 0
+				if r.Chance(85) {
+					q = vhlib.Pick(r, sel(org, true))
+				}
+				mkDash(org, q)
+			}
+			if r.Chance(50) {
+				ops = append(ops, kOp{Op: "dget", Org: org, Ref: pickDash(org)})
+			}
+		}
+		// ---- change the tree, read after the writes
+		for k, l := 0, r.Range(14, 30); k < l; k++ {
+			org := vhlib.Pick(r, orgs)
+			write := true
+			switch x := r.Intn(100); {
+			case x < 22: // rename a folder
+				ops = append(ops, kOp{Op: "fupdate", Org: org, Ref: pickFolder(org), Name: fresh()})
+			case x < 44: // move a folder (10%: below itself, must be rejected)
+				f, q := pickFolder(org), 0
+				if fs := sel(org, true); len(fs) > 0 && r.Chance(80) {
+					q = vhlib.Pick(r, fs)
+				}
+				nm := ""
+				if r.Chance(18) {
+					nm = fresh()
+				}
+				ops = append(ops, kOp{Op: "fupdate", Org: org, Ref: f, Name: nm, Parent: par(q)})
+				if f != 99 && !below(q, f) {
+					nodes[f].parent = q
+				}
+			case x < 52: // save a dashboard, possibly into another folder
+				d, q := pickDash(org), 0
+				pp := 0
+				if r.Chance(60) {
+					if fs := sel(org, true); len(fs) > 0 && r.Chance(80) {
+						q = vhlib.Pick(r, fs)
+					}
+					pp = par(q)
+					if d != 99 {
+						nodes[d].parent = q
+					}
+				}
+				ops = append(ops, kOp{Op: "dupdate", Org: org, Ref: d, Name: dname(), Desc: vhlib.Pick(r, oddStrings), Note: vhlib.Pick(r, oddStrings), Parent: pp})
+			case x < 55:
+				ops = append(ops, kOp{Op: "dfav", Org: org, Ref: pickDash(org)})
+			case x < 58:
+				f := pickFolder(org)
+				ops = append(ops, kOp{Op: "fdelete", Org: org, Ref: f})
+				if f != 99 {
+					kill(f)
+				}
+			case x < 60:
+				d := pickDash(org)
+				ops = append(ops, kOp{Op: "ddelete", Org: org, Ref: d})
+				delete(nodes, d)
+			case x < 66:
+				q := 0
+				if fs := sel(org, true); len(fs) > 0 && r.Chance(85) {
+					q = vhlib.Pick(r, fs)
+				}
+				mkFolder(org, q)
+			case x < 72:
+				q := 0
+				if fs := sel(org, true); len(fs) > 0 && r.Chance(90) {
+					q = vhlib.Pick(r, fs)
+				}
+				mkDash(org, q)
+			case x < 76:
+				ops, write = append(ops, kOp{Op: "list", Org: org}), false
+			case x < 82:
+				rf := -1
+				if r.Chance(75) {
+					rf = pickFolder(org)
+				}
+				ops, write = append(ops, kOp{Op: "contents", Org: org, Ref: rf}), false
+			default:
+				ops, write = append(ops, kOp{Op: "dget", Org: org, Ref: pickDash(org)}), false
+			}
+			if r.Chance(8) {
+				cuts[len(ops)] = true
+			}
+			if write && r.Chance(60) {
+				ops = append(ops, kOp{Op: "dget", Org: org, Ref: pickDash(org)})
+			}
+		}
+		// ---- every dashboard read at the end, before and after a listing and after a restart
+		readAll := func() {
+			for _, org := range orgs {
+				for _, d := range sel(org, false) {
+					ops = append(ops, kOp{Op: "dget", Org: org, Ref: d})
+				}
+			}
+		}
+		readAll()
+		for _, o := range orgs {
+			ops = append(ops, kOp{Op: "list", Org: o})
+		}
+		cuts[len(ops)] = r.Chance(70)
+		readAll()
+		scs = append(scs, &scenario{Store: "dash", Class: stream, Orgs: orgs, Segs: splitSegs(ops, cuts)})
+	}
+	return scs
+}
+
+// genDashPathReuse: directed scenarios of the known class "stored path string still matches although
+// the chain of folders changed" (refreshFolderMetadata compares path strings only), each below a
+// random prefix of folders and with a restart at a random position.
+func genDashPathReuse(r *vhlib.Rng, n int) []*scenario {
+	var scs []*scenario
+	for i := 0; i < n; i++ {
+		org := vhlib.Pick(r, []int64{0, 3})
+		var ops []kOp
+		next := 1
+		mkF := func(name string, p int) int {
+			ops = append(ops, kOp{Op: "fcreate", Org: org, Name: name, Parent: p, NewRef: next})
+			next++
+			return next - 1
+		}
+		mkD := func(p int) int {
+			ops = append(ops, kOp{Op: "dcreate", Org: org, Name: "D", Desc: "d", Parent: p, NewRef: next})
+			next++
+			return next - 1
+		}
+		top := -1
+		for d, dd := 0, r.Intn(3); d < dd; d++ {
+			top = mkF(fmt.Sprintf("pre%d", d), top)
+		}
+		var d int
+		switch i % 3 {
+		case 0: // same names, other folder: x/p -> (x renamed y; new x) -> p moved into the new x
+			x := mkF("x", top)
+			p := mkF("p", x)
+			d = mkD(p)
+			ops = append(ops, kOp{Op: "dget", Org: org, Ref: d})
+			ops = append(ops, kOp{Op: "fupdate", Org: org, Ref: x, Name: "y"})
+			x2 := mkF("x", top)
+			ops = append(ops, kOp{Op: "fupdate", Org: org, Ref: p, Parent: x2})
+		case 1: // '/' in names: X > "a/b"  ->  "X/a" > "b"
+			a := mkF("X", top)
+			b := mkF("a/b", a)
+			d = mkD(b)
+			ops = append(ops, kOp{Op: "fupdate", Org: org, Ref: a, Name: "X/a"})
+			ops = append(ops, kOp{Op: "fupdate", Org: org, Ref: b, Name: "b"})
+		default: // '/' in names: "u/v" > q  ->  u > v > q
+			s := mkF("u/v", top)
+			u := mkF("u", top)
+			vv := mkF("v", u)
+			q := mkF("q", s)
+			d = mkD(q)
+			ops = append(ops, kOp{Op: "fupdate", Org: org, Ref: q, Parent: vv})
+		}
+		cuts := map[int]bool{}
+		if r.Chance(60) {
+			cuts[r.Range(1, len(ops))] = true
+		}
+		ops = append(ops, kOp{Op: "dget", Org: org, Ref: d}, kOp{Op: "list", Org: org}, kOp{Op: "dget", Org: org, Ref: d})
+		scs = append(scs, &scenario{Store: "dash", Class: "tree_path_reuse", Orgs: []int64{0, 3}, Segs: splitSegs(ops, cuts)})
+	}
+	return scs
+}
+
+type crumb struct {
+	Ref  int
+	Name string
+}
+
+func sameCrumbs(a, b []crumb) bool {
+	if len(a) != len(b) {
+		return false
+	}
+	for i := range a {
+		if a[i] != b[i] {
+			return false
+		}
+	}
+	return true
+}
+
+func crumbStr(c []crumb) string {
+	p := make([]string, len(c))
+	for i, x := range c {
+		p[i] = fmt.Sprintf("%d:%q", x.Ref, x.Name)
+	}
+	return "[" + strings.Join(p, " > ") + "]"
+}
+
+func coqCrumbs(c []crumb) string {
+	p := make([]string, len(c))
+	for i, x := range c {
+		p[i] = fmt.Sprintf("(%d, %s)", x.Ref, vhlib.CoqStr(x.Name))
+	}
+	return vhlib.CoqList(p)
+}
+
+func maxInt(a, b int) int {
+	if a > b {
+		return a
+	}
+	return b
+}
+
+// treeHistory: the accepted tree operations of one tenant up to (and without) operation k, readable
+func treeHistory(sc *scenario, k int, org int64) string {
+	var sb strings.Builder
+	par := func(p int) string {
+		switch p {
+		case 0:
+			return ""
+		case -1:
+			return " parent=root"
+		}
+		return fmt.Sprintf(" parent=%d", p)
+	}
+	for j, f := range sc.flat() {
+		if j >= k {
+			break
+		}
+		if f.Restart {
+			sb.WriteString("RESTART; ")
+		}
+		if f.Org != org || j >= len(sc.res) || sc.res[j].Status != 200 {
+			continue
+		}
+		switch f.Op {
+		case "fcreate":
+			fmt.Fprintf(&sb, "folder %d=%q%s; ", f.NewRef, f.Name, par(f.Parent))
+		case "dcreate":
+			fmt.Fprintf(&sb, "dashboard %d=%q%s; ", f.NewRef, f.Name, par(f.Parent))
+		case "fupdate":
+			fmt.Fprintf(&sb, "update folder %d name=%q%s; ", f.Ref, f.Name, par(f.Parent))
+		case "dupdate":
+			fmt.Fprintf(&sb, "save dashboard %d name=%q%s; ", f.Ref, f.Name, par(f.Parent))
+		case "ddelete", "fdelete":
+			fmt.Fprintf(&sb, "%s %d; ", f.Op, f.Ref)
+		case "dget":
+			fmt.Fprintf(&sb, "get %d; ", f.Ref)
+		case "list":
+			sb.WriteString("list; ")
+		}
+	}
+	return sb.String()
+}
+
 func checkDash(sc *scenario, sum *vhlib.Summary) *verdict {
-	v := &verdict{}
+	v := &verdict{tops: map[int64][]string{}, tobs: map[int64][]string{}}
 	items := map[int]*dItem{}
 	rev := map[string]int{"root-folder": 0}
 	for ref, id := range sc.ids {
@@ -811,6 +1213,64 @@ func checkDash(sc *scenario, sum *vhlib.Summary) *verdict {
 	fail := func(class, detail string, k int) {
 		v.fails++
 		sum.Fail(class, detail, map[string]interface{}{"scenario": sc, "failing_op_index": k})
+	}
+	// ---- the tree: what the last accepted writes determine for a folder (name, path, breadcrumbs)
+	treeStream := strings.HasPrefix(sc.Class, "tree")
+	tput := func(org int64, op, ob string) {
+		if treeStream {
+			v.tops[org], v.tobs[org] = append(v.tops[org], op), append(v.tobs[org], ob)
+		}
+	}
+	refOf := func(id string) int {
+		if r, ok := rev[id]; ok {
+			return r
+		}
+		return 999999
+	}
+	// chain of folders from the root (exclusive) down to p
+	chainOf := func(p int) []crumb {
+		var c []crumb
+		for cur, n := p, 0; cur != 0 && n < 100; n++ {
+			it := items[cur]
+			if it == nil {
+				break
+			}
+			c = append([]crumb{{cur, it.Name}}, c...)
+			cur = it.Parent
+		}
+		return c
+	}
+	pathOf := func(c []crumb) string {
+		ns := make([]string, len(c))
+		for i, x := range c {
+			ns[i] = x.Name
+		}
+		return strings.Join(ns, "/")
+	}
+	crumbsOf := func(p int) []crumb { return append([]crumb{{0, "Root"}}, chainOf(p)...) }
+	folderName := func(p int) string {
+		if p == 0 {
+			return "Root"
+		}
+		if it := items[p]; it != nil {
+			return it.Name
+		}
+		return ""
+	}
+	optName := func(s string) string {
+		if s == "" {
+			return "None"
+		}
+		return "(Some " + vhlib.CoqStr(s) + ")"
+	}
+	optPar := func(p int) string {
+		if p == 0 {
+			return "None"
+		}
+		if p == -1 {
+			return "(Some 0)"
+		}
+		return fmt.Sprintf("(Some %d)", p)
 	}
 	cls := func(base string) string {
 		if restarted {
@@ -835,6 +1295,9 @@ func checkDash(sc *scenario, sum *vhlib.Summary) *verdict {
 	for k, f := range sc.flat() {
 		if f.Restart {
 			v.ops, v.obs = append(v.ops, "Restart"), append(v.obs, "OAck true")
+			for _, o := range sc.Orgs {
+				tput(o, "DRestart", "DAck")
+			}
 			restarted = true
 		}
 		res := sc.res[k]
@@ -855,6 +1318,9 @@ func checkDash(sc *scenario, sum *vhlib.Summary) *verdict {
 				items[f.NewRef] = &dItem{Typ: typ, Name: f.Name, Parent: parentOf(f.Parent), Desc: f.Desc, Org: f.Org}
 				if typ == "folder" {
 					items[f.NewRef].Desc = ""
+					tput(f.Org, fmt.Sprintf("MkFolder %d %s %d", f.NewRef, vhlib.CoqStr(f.Name), parentOf(f.Parent)), "DAck")
+				} else {
+					tput(f.Org, fmt.Sprintf("MkDash %d %s %d", f.NewRef, vhlib.CoqStr(f.Name), parentOf(f.Parent)), "DAck")
 				}
 				put(f.NewRef)
 				restarted = false
@@ -874,6 +1340,7 @@ func checkDash(sc *scenario, sum *vhlib.Summary) *verdict {
 				if f.Parent != 0 {
 					it.Parent = parentOf(f.Parent)
 				}
+				tput(f.Org, fmt.Sprintf("UpdDash %d %s %s", f.Ref, vhlib.CoqStr(f.Name), optPar(f.Parent)), "DAck")
 				put(f.Ref)
 				restarted = false
 			}
@@ -889,6 +1356,7 @@ func checkDash(sc *scenario, sum *vhlib.Summary) *verdict {
 			if ok {
 				delete(items, f.Ref)
 				del(f.Ref, f.Org)
+				tput(f.Org, fmt.Sprintf("DelDash %d", f.Ref), "DAck")
 				restarted = false
 			}
 		case "dfav":
@@ -923,6 +1391,7 @@ func checkDash(sc *scenario, sum *vhlib.Summary) *verdict {
 				if f.Parent != 0 {
 					it.Parent = parentOf(f.Parent)
 				}
+				tput(f.Org, fmt.Sprintf("UpdFolder %d %s %s", f.Ref, optName(f.Name), optPar(f.Parent)), "DAck")
 				put(f.Ref)
 				restarted = false
 			}
@@ -951,6 +1420,7 @@ func checkDash(sc *scenario, sum *vhlib.Summary) *verdict {
 					delete(items, r2)
 					del(r2, f.Org)
 				}
+				tput(f.Org, fmt.Sprintf("DelFolder %d", f.Ref), "DAck")
 				restarted = false
 			}
 		case "dget":
@@ -968,6 +1438,7 @@ func checkDash(sc *scenario, sum *vhlib.Summary) *verdict {
 				}
 				v.ops = append(v.ops, fmt.Sprintf("Get %d %s", f.Org, vhlib.CoqStr(fmt.Sprint(f.Ref))))
 				v.obs = append(v.obs, "OVal None")
+				tput(f.Org, fmt.Sprintf("GetDash %d", f.Ref), "DInfo None")
 				continue
 			}
 			var d map[string]interface{}
@@ -978,10 +1449,23 @@ func checkDash(sc *scenario, sum *vhlib.Summary) *verdict {
 			got.Note, _ = d["note"].(string)
 			got.Fav, _ = d["isFavorite"].(bool)
 			got.Parent = -7
+			var gotFName, gotPath string
+			var gotCrumbs []crumb
 			if fo, _ := d["folder"].(map[string]interface{}); fo != nil {
 				if id, _ := fo["id"].(string); id != "" {
 					if p, okp := rev[id]; okp {
 						got.Parent = p
+					}
+				}
+				gotFName, _ = fo["name"].(string)
+				gotPath, _ = fo["path"].(string)
+				if bc, _ := fo["breadcrumbs"].([]interface{}); bc != nil {
+					for _, b := range bc {
+						if bm, _ := b.(map[string]interface{}); bm != nil {
+							bid, _ := bm["id"].(string)
+							bn, _ := bm["name"].(string)
+							gotCrumbs = append(gotCrumbs, crumb{refOf(bid), bn})
+						}
 					}
 				}
 			}
@@ -989,17 +1473,47 @@ func checkDash(sc *scenario, sum *vhlib.Summary) *verdict {
 				fail(cls("dashboard_read_differs_from_last_write"), fmt.Sprintf("get ref %d tenant %d: status %d, read %q note %q; last written %q note %q", f.Ref, f.Org, res.Status, got.val(), got.Note, it.val(), it.Note), k)
 				return v
 			}
+			// the place of the dashboard in the tree: parent folder's name, path and breadcrumbs are
+			// determined by the last writes to the dashboard's folder AND to every ancestor of it
+			wantCrumbs := crumbsOf(it.Parent)
+			wantPath, wantFName := pathOf(chainOf(it.Parent)), folderName(it.Parent)
+			hist := func() string { return treeHistory(sc, k, f.Org) }
+			if gotPath != wantPath {
+				fail(cls("dashboard_folder_path_differs_from_tree"), fmt.Sprintf("get dashboard %d (tenant %d, folder %d, depth %d): folder.path %q breadcrumbs %s; the folder tree last written gives path %q breadcrumbs %s; history: %s",
+					f.Ref, f.Org, it.Parent, len(wantCrumbs)-1, gotPath, crumbStr(gotCrumbs), wantPath, crumbStr(wantCrumbs), hist()), k)
+				return v
+			}
+			if gotFName != wantFName || !sameCrumbs(gotCrumbs, wantCrumbs) {
+				// same path STRING, other folders: refreshFolderMetadata compares path strings only
+				detail := fmt.Sprintf("get dashboard %d (tenant %d, folder %d): folder.name %q breadcrumbs %s with path %q; the folder tree last written gives name %q breadcrumbs %s (same path string); history: %s",
+					f.Ref, f.Org, it.Parent, gotFName, crumbStr(gotCrumbs), gotPath, wantFName, crumbStr(wantCrumbs), hist())
+				switch sc.Class {
+				case "tree_path_reuse":
+					v.knownFails++
+					sum.Fail("dashboard_folder_info_stale_while_path_string_unchanged", detail, map[string]interface{}{"scenario": sc, "failing_op_index": k})
+				case "tree":
+					// folder names are never reused in this stream: equal path strings mean equal chains
+					fail(cls("dashboard_folder_breadcrumbs_differ_from_tree"), detail, k)
+					return v
+				default:
+					// streams with a small pool of repeated / slashed names run into the known class by chance
+					sum.Count("store/dash/tolerated_stale_info_same_path_string")
+				}
+			}
+			tput(f.Org, fmt.Sprintf("GetDash %d", f.Ref), fmt.Sprintf("DInfo (Some (mkInfo %d %s %s %s))", maxInt(got.Parent, 0), vhlib.CoqStr(gotFName), vhlib.CoqStr(gotPath), coqCrumbs(gotCrumbs)))
 			v.ops = append(v.ops, fmt.Sprintf("Get %d %s", f.Org, vhlib.CoqStr(fmt.Sprint(f.Ref))))
 			v.obs = append(v.obs, "OVal (Some "+vhlib.CoqStr(got.val())+")")
 		case "list":
 			var lr struct {
 				Items []struct {
 					ID, Name, Type, ParentId, Description string
+					ParentName, FullPath                  string
 					IsStarred                             bool
 				} `json:"items"`
 			}
 			_ = json.Unmarshal([]byte(res.Body), &lr)
 			got := map[string]string{}
+			gotPlace, rows := map[int][2]string{}, map[int]string{}
 			for _, x := range lr.Items {
 				rf, okr := rev[x.ID]
 				p, okp := rev[x.ParentId]
@@ -1009,6 +1523,8 @@ func checkDash(sc *scenario, sum *vhlib.Summary) *verdict {
 				}
 				g := dItem{Typ: x.Type, Name: x.Name, Parent: p, Desc: x.Description, Fav: x.IsStarred}
 				got[fmt.Sprint(rf)] = g.val()
+				gotPlace[rf] = [2]string{x.ParentName, x.FullPath}
+				rows[rf] = fmt.Sprintf("(%d, (%s, %v, %d, %s, %s))", rf, vhlib.CoqStr(x.Name), x.Type == "folder", p, vhlib.CoqStr(x.ParentName), vhlib.CoqStr(x.FullPath))
 			}
 			want := map[string]string{}
 			for rf, x := range items {
@@ -1020,6 +1536,30 @@ func checkDash(sc *scenario, sum *vhlib.Summary) *verdict {
 				fail(cls("dashboard_list_differs_from_last_write"), fmt.Sprintf("list tenant %d: status %d, listed %v; last written %v", f.Org, res.Status, got, want), k)
 				return v
 			}
+			// parent name and full path of every listed item against the tree last written
+			var lrefs []int
+			for rf := range gotPlace {
+				lrefs = append(lrefs, rf)
+			}
+			sort.Ints(lrefs)
+			for _, rf := range lrefs {
+				x := items[rf]
+				wantPN := ""
+				if x.Parent != 0 {
+					wantPN = folderName(x.Parent)
+				}
+				wantFP := pathOf(append(chainOf(x.Parent), crumb{rf, x.Name}))
+				if gotPlace[rf] != [2]string{wantPN, wantFP} {
+					fail(cls("dashboard_list_path_differs_from_tree"), fmt.Sprintf("list tenant %d: item %d (%s) listed with parent name %q full path %q; the folder tree last written gives %q %q; history: %s",
+						f.Org, rf, x.Typ, gotPlace[rf][0], gotPlace[rf][1], wantPN, wantFP, treeHistory(sc, k, f.Org)), k)
+					return v
+				}
+			}
+			lrows := make([]string, 0, len(lrefs))
+			for _, rf := range lrefs {
+				lrows = append(lrows, rows[rf])
+			}
+			tput(f.Org, "ListAll", "DList "+vhlib.CoqList(lrows))
 			v.ops = append(v.ops, fmt.Sprintf("ListAll %d", f.Org))
 			v.obs = append(v.obs, "OList "+coqKVList(got))
 		case "contents":
@@ -1032,12 +1572,15 @@ func checkDash(sc *scenario, sum *vhlib.Summary) *verdict {
 				continue
 			}
 			var cr struct {
-				Items []struct{ ID, Name, Type string } `json:"items"`
+				Items       []struct{ ID, Name, Type string } `json:"items"`
+				Breadcrumbs []struct{ ID, Name string }       `json:"breadcrumbs"`
 			}
 			_ = json.Unmarshal([]byte(res.Body), &cr)
 			got, want := map[string]string{}, map[string]string{}
+			var children []string
 			for _, x := range cr.Items {
 				got[fmt.Sprint(rev[x.ID])] = x.Type + "|" + x.Name
+				children = append(children, fmt.Sprintf("(%d, (%v, %s))", refOf(x.ID), x.Type == "folder", vhlib.CoqStr(x.Name)))
 			}
 			for rf, x := range items {
 				if x.Org == f.Org && x.Parent == folder {
@@ -1048,6 +1591,16 @@ func checkDash(sc *scenario, sum *vhlib.Summary) *verdict {
 				fail(cls("folder_contents_differ_from_last_write"), fmt.Sprintf("contents of %d tenant %d: status %d, %v; expected %v", f.Ref, f.Org, res.Status, got, want), k)
 				return v
 			}
+			var gotCrumbs []crumb
+			for _, b := range cr.Breadcrumbs {
+				gotCrumbs = append(gotCrumbs, crumb{refOf(b.ID), b.Name})
+			}
+			if wantCrumbs := crumbsOf(folder); !sameCrumbs(gotCrumbs, wantCrumbs) {
+				fail(cls("folder_breadcrumbs_differ_from_tree"), fmt.Sprintf("contents of folder %d tenant %d: breadcrumbs %s; the folder tree last written gives %s; history: %s",
+					folder, f.Org, crumbStr(gotCrumbs), crumbStr(wantCrumbs), treeHistory(sc, k, f.Org)), k)
+				return v
+			}
+			tput(f.Org, fmt.Sprintf("Contents %d", folder), fmt.Sprintf("DCont %s %s", vhlib.CoqList(children), coqCrumbs(gotCrumbs)))
 		}
 	}
 	return v
@@ -1887,6 +2440,7 @@ func runStores(cfg vhlib.Config, r *vhlib.Rng, sum *vhlib.Summary) {
 	var scs []*scenario
 	scs = append(scs, genUsq(r.Fork(), 40*mult)...)
 	scs = append(scs, genDash(r.Fork(), 40*mult, false)...)
+	scs = append(scs, genDashTree(r.Fork(), 30*mult, "tree")...)
 	scs = append(scs, genAlias(r.Fork(), 30*mult, "main")...)
 	scs = append(scs, genAlias(r.Fork(), 30*mult, "shared")...)
 	scs = append(scs, genLookup(r.Fork(), 25*mult)...)
@@ -1896,6 +2450,8 @@ func runStores(cfg vhlib.Config, r *vhlib.Rng, sum *vhlib.Summary) {
 	scs = append(scs, genDash(r.Fork(), 8*mult, true)...)
 	scs = append(scs, &scenario{Store: "dash", Class: "type_confusion_cycle", Orgs: []int64{0}, HangClass: "dashboard_update_with_folder_id_creates_parent_cycle_and_hangs",
 		Segs: [][]kOp{{{Op: "fcreate", Org: 0, Name: "F", NewRef: 1}, {Op: "dupdate", Org: 0, Ref: 1, Name: "F", Parent: 1, Desc: "d"}, {Op: "list", Org: 0}}}})
+	scs = append(scs, genDashPathReuse(r.Fork(), 6*mult)...)
+	scs = append(scs, genDashTree(r.Fork(), 4*mult, "tree_path_reuse")...)
 	scs = append(scs, genAlias(r.Fork(), 6*mult, "alias_restart")...)
 	scs = append(scs, genAlias(r.Fork(), 6*mult, "alias_shutdown")...)
 
@@ -1924,6 +2480,7 @@ func runStores(cfg vhlib.Config, r *vhlib.Rng, sum *vhlib.Summary) {
 		names []string
 	}
 	buckets := map[string]*bucket{}
+	treeFresh, treeAny := &bucket{}, &bucket{}
 	for i, sc := range scs {
 		if sc.err != "" && sc.hung >= 0 && sc.HangClass != "" {
 			sum.Fail(sc.HangClass, fmt.Sprintf("the worker did not answer within 3 s in segment %d (request loops forever)", sc.hung), map[string]interface{}{"scenario": sc})
@@ -1969,6 +2526,22 @@ func runStores(cfg vhlib.Config, r *vhlib.Rng, sum *vhlib.Summary) {
 		if sc.Class == "cross_tenant_by_id" || sc.Class == "type_confusion_cycle" || (v.fails > 0 && sc.Store != "alias") {
 			continue
 		}
+		if strings.HasPrefix(sc.Class, "tree") {
+			// the tree model (DashTree.v), one history per tenant
+			for _, o := range sc.Orgs {
+				if len(v.tops[o]) == 0 {
+					continue
+				}
+				nm := fmt.Sprintf("sc_%d_t%d", i, o)
+				def := fmt.Sprintf("Definition %s : list dop * list dout := (%s,\n  %s).\n", nm, vhlib.CoqList(v.tops[o]), vhlib.CoqList(v.tobs[o]))
+				if sc.Class == "tree" {
+					treeFresh.defs, treeFresh.names = append(treeFresh.defs, def), append(treeFresh.names, nm)
+				} else {
+					treeAny.defs, treeAny.names = append(treeAny.defs, def), append(treeAny.names, nm)
+				}
+			}
+			continue
+		}
 		b := buckets[sc.Store]
 		if b == nil {
 			b = &bucket{}
@@ -1981,6 +2554,19 @@ func runStores(cfg vhlib.Config, r *vhlib.Rng, sum *vhlib.Summary) {
 		}
 		b.defs = append(b.defs, fmt.Sprintf("Definition %s : %s := (%s,\n  %s).\n", nm, typ, vhlib.CoqList(v.ops), vhlib.CoqList(v.obs)))
 		b.names = append(b.names, nm)
+	}
+	for _, tb := range []struct {
+		b        *bucket
+		name, fn string
+	}{{treeFresh, "cases_dashtree_fresh", "dt_bad_fresh"}, {treeAny, "cases_dashtree_reuse", "dt_bad"}} {
+		for sh := 0; sh*40 < len(tb.b.names); sh++ {
+			lo, hi := sh*40, (sh+1)*40
+			if hi > len(tb.b.names) {
+				hi = len(tb.b.names)
+			}
+			sum.WriteCaseFile(cfg.Out, fmt.Sprintf("%s_%d", tb.name, sh), "From SigM Require Import Base DashTree DashTreeCheck AlertCheck.\n",
+				strings.Join(tb.b.defs[lo:hi], ""), fmt.Sprintf("scen_bad (fun p => %s (fst p) (snd p)) %s 0", tb.fn, vhlib.CoqList(tb.b.names[lo:hi])), hi-lo)
+		}
 	}
 	stores := make([]string, 0, len(buckets))
 	for s := range buckets {
